@@ -32,6 +32,12 @@ func toByteSortable[T Invertable](v T) ([]byte, error) {
 		 * https://stackoverflow.com/questions/54557158/byte-ordering-of-floats
 		 */
 		bits := math.Float64bits(v)
+		if v == 0 {
+			// Negative zero compares equal to positive zero, they must share
+			// a key. Otherwise -0.0 has its sign bit set, is treated as
+			// positive by the check below and sorts before every other float.
+			bits = 0
+		}
 		if v >= 0 {
 			bits ^= 0x8000000000000000 // math.MinInt64
 		} else {
